@@ -51,6 +51,11 @@ Schema(c) ==
     \* na never mentions nd: it reaches the union Tint only through the alias Shade of the shared namespace
     ("Tint"  :> DUnion("nd", "", TRUE, <<Tag("dark", TVoid), Tag("light", TVoid)>>)) @@
     ("Shade" :> DAlias(NB(c), TRef("Tint"), "")) @@
+    \* a namespace whose only type inherits a defaulted field from another namespace and has nothing optional of its own
+    ("Base0"  :> DStruct(NB(c), "", <<Fld("id", Str), FldD("weight", I32, VInt(13))>>, <<>>, FALSE)) @@
+    ("Circle" :> DStruct("nf", "Base0", <<Fld("radius", TFloat("Float64", Unset, Unset))>>, <<>>, FALSE)) @@
+    \* a namespace that declares nothing but an alias
+    ("Label" :> DAlias("ne", TStr(1, Unset, ""), "")) @@
     ("Entry" :> DStruct(AncNs(c), "", <<Fld("ident", Str), Fld("label", TNull(Str)), FldD("rank", S64, VInt(13))>>, <<>>, FALSE)) @@
     (IF c.chain = "marker3"
      THEN ("PinnedEntry" :> DStruct(AncNs(c), "Entry", <<>>, <<>>, FALSE)) ELSE <<>>) @@
@@ -84,7 +89,7 @@ Schema(c) ==
                                    Fld("by_name", TMap(TList(I32, Unset, Unset))),
                                    Fld("holes", TList(TNull(Str), Unset, Unset)),
                                    Fld("cells", TList(TList(TRef("Entry"), Unset, Unset), Unset, Unset)),
-                           Fld("ra", TNull(TRef("RA"))), Fld("rb", TList(TRef("RB"), Unset, Unset))>>, <<>>, FALSE)) @@
+                           Fld("label", TRef("Label")), Fld("ra", TNull(TRef("RA"))), Fld("rb", TList(TRef("RB"), Unset, Unset))>>, <<>>, FALSE)) @@
     (IF c.ring THEN ("Yb" :> DStruct(NB(c), "", <<Fld("z", TNull(TRef("Zc")))>>, <<>>, FALSE)) @@
                     ("Zc" :> DStruct("nc", "", <<Fld("e", TNull(TRef("Upload")))>>, <<>>, FALSE))
      ELSE <<>>)
@@ -111,7 +116,7 @@ RoutesOf(c) == <<
     Route("nc", "ping", 1, TVoid, TVoid, "none", <<>>, "rpc"),
     \* (in the ring model nc must import na only, or nb <-> nc would be a direct mutual import)
     Route("nc", "whoami", 1, TVoid, IF c.ring THEN TVoid ELSE TRef("Entry"), "none", <<>>, "rpc") >>
-Namespaces(c) == {"na", NB(c), "nc", "nd"}
+Namespaces(c) == {"na", NB(c), "nc", "nd", "ne", "nf"}
 \* python_types names a module after its namespace, with an underscore appended to Python reserved words
 PyReserved == {"async", "class", "for", "pass", "while", "break", "continue", "import", "from", "global", "lambda"}
 PyModule(ns) == IF ns \in PyReserved THEN ns \o "_" ELSE ns
